@@ -96,12 +96,12 @@ def impl_rot(o, p, a):
 
 # ------------------------------------------------------------------ float mirrors used only to pick branches / tolerances
 def wrap_choice(l1, l2):
-    """(tag, wrapped lon2) exactly as ensure_edge_bounds decides (float arithmetic is exact here
-    or the case is skipped by the caller when it is not)"""
-    if abs(l1 - l2) > 180:
+    """(tag, wrapped lon2) as ensure_edge_bounds decides, the comparison being made exactly (as
+    the Coq side does); the returned float longitude is only used for tolerances"""
+    if abs(Fraction(l1) - Fraction(l2)) > 180:
         if l1 < 0:
             return 'Wminus', l2 - 360
-        if l2 + 360 == 180:
+        if l2 == -180:
             return 'Wplus180', -180.0
         return 'Wplus', l2 + 360
     return 'Wnone', l2
@@ -145,8 +145,6 @@ def k_hdist(name, p, q, v):
         return (f'Lemma {name} : Rabs (hdist {plit(p)} {plit(q)} - {rlit(v)}) <= {epslit(1e-9)}.\n'
                 f'Proof. apply K_hdist_same; interval. Qed.\n'), None
     w, l2w = wrap_choice(p[0], q[0])
-    if Fraction(l2w) != Fraction(q[0]) + {'Wnone': 0, 'Wminus': -360, 'Wplus': 360, 'Wplus180': 0}[w] and w != 'Wplus180':
-        return None, 'wrap-inexact'
     a = hav_a_float(p, (l2w, q[1]))
     if 1 - a < 1e-22:
         return None, 'antipodal-exact'
@@ -157,7 +155,7 @@ def k_hdist(name, p, q, v):
 
 def k_xyz(name, p, q, v):
     if p == q:
-        return (f'Lemma {name} : Rabs (dist_xyz {plit(p)} {plit(q)} - {rlit(v)}) <= {epslit(0.2)}.\n'
+        return (f'Lemma {name} : Rabs (dist_xyz {plit(p)} {plit(q)} - {rlit(v)}) <= {epslit(0.3)}.\n'
                 f'Proof. apply K_dist_xyz_same; interval. Qed.\n'), None
     w, l2w = wrap_choice(p[0], q[0])
     a = hav_a_float(p, (l2w, q[1]))
@@ -165,7 +163,7 @@ def k_xyz(name, p, q, v):
         return None, 'antipodal-exact'
     # acos loses the short (and the near-antipodal) distance digits: d(acos)/dx = 1/sqrt(1-x^2)
     dot = 1 - 2 * a
-    eps = 1e-6 + R_EARTH * 4e-16 / max(math.sqrt(max(1 - dot * dot, 0.0)), 2e-8)
+    eps = 1e-6 + R_EARTH * 1e-15 / max(math.sqrt(max(1 - dot * dot, 0.0)), 2.2e-8)
     return (f'Lemma {name} : Rabs (dist_xyz {plit(p)} {plit(q)} - {rlit(v)}) <= {epslit(eps)}.\n'
             f'Proof. apply (K_dist_xyz {w}); [k_side | k_ivl | k_ivl]. Qed.\n'), None
 
@@ -442,7 +440,7 @@ def oracle_pair(p, q, obs, rng, stats):
     if abs(h - ref) > 2 * tol + 1e-5:
         bad.append(('hav_is_great_circle', f'd={h!r} but the great-circle distance is {ref!r}'))
     dot = math.cos(ref / R_EARTH)
-    tol_xyz = 1e-5 + R_EARTH * 1e-15 / max(math.sqrt(max(1 - dot * dot, 0.0)), 2e-8)
+    tol_xyz = 1e-5 + R_EARTH * 1e-15 / max(math.sqrt(max(1 - dot * dot, 0.0)), 2.2e-8)
     if abs(xyz - ref) > tol_xyz:
         bad.append(('dist_xyz', f'dist_xyz={xyz!r} but the great-circle distance is {ref!r}'))
     # common longitude shift, re-normalised by the constructor (possibly across the antimeridian)
